@@ -19,6 +19,13 @@ def sh(cmd, cwd=None, env=None, timeout=3600):
     return p.returncode, (p.stdout + p.stderr)
 
 
+def fresh_bytecode(tree):
+    """a one-token change keeps the file size, and applying / reversing a patch within one second keeps the mtime: Python would
+    then reuse the OTHER version's cached bytecode.  Drop the caches before every run that must see the current source."""
+    for d in Path(tree).rglob("__pycache__"):
+        shutil.rmtree(d, ignore_errors=True)
+
+
 def recheck(ids):
     """python -m harness.seed --recheck [ids…]: rebuild a scratch worktree of /repo HEAD per kept change, apply its patch there,
     and run the whole confirmation again (demo both ways, baseline, the checks against /repo with the change applied)."""
@@ -94,13 +101,16 @@ def one(sid, wt, props, keep=None, suffix=None):
         shutil.copy(patch, dest / "patch.diff")
     if demo.resolve() != (dest / demo.name).resolve():
         shutil.copy(demo, dest / demo.name)
-    env = {"PYTHONPATH": str(wt / "src"), "PATH": "/usr/bin:/bin"}
+    env = {"PYTHONPATH": str(wt / "src"), "PATH": "/usr/bin:/bin", "PYTHONDONTWRITEBYTECODE": "1"}
     meta = {"seed": sid, "breaks_property": pid, "patch": "patch.diff", "demonstration": demo.name, **(keep or {}), "ran": []}
     # 1. demo on the changed worktree and on the unchanged one
+    fresh_bytecode(wt)
     rc_with, out_with = sh(["/venv/bin/python", str(demo)], cwd=wt, env=env)
     sh(["git", "apply", "-R", str(patch)], cwd=wt)
+    fresh_bytecode(wt)
     rc_without, out_without = sh(["/venv/bin/python", str(demo)], cwd=wt, env=env)
     sh(["git", "apply", str(patch)], cwd=wt)
+    fresh_bytecode(wt)
     meta["demo_with_change"] = {"exit": rc_with, "tail": out_with[-300:]}
     meta["demo_without_change"] = {"exit": rc_without, "tail": out_without[-200:]}
     meta["ran"].append("demo with and without the change in the scratch worktree")
@@ -117,6 +127,7 @@ def one(sid, wt, props, keep=None, suffix=None):
         if rc != 0:
             meta["apply_error"] = out[-300:]
         else:
+            fresh_bytecode("/repo/src")
             try:
                 for p in props:
                     rc, out = sh([str(VERIF / "check"), p, "--tier", "quick"], cwd=VERIF)
@@ -133,6 +144,7 @@ def one(sid, wt, props, keep=None, suffix=None):
                     meta["ran"].append(f"./check {p} --tier quick with the change applied to /repo")
             finally:
                 sh(["git", "-C", "/repo", "checkout", "--", "."])
+                fresh_bytecode("/repo/src")
     meta["checks"] = results
     meta["caught_by"] = [p for p, r in results.items() if r["exit"] == 1 and r["violation_line"]]
     (dest / "meta.json").write_text(json.dumps(meta, indent=1) + "\n")
